@@ -147,6 +147,87 @@ def ob_ancestry(cx):
     cx.cover("ancestry")
 
 
+NULL = b"z"          # stands for NULL_REVISION inside the construction obligation (one byte, the largest letter)
+
+
+def ob_construction(cx):
+    """search_result_from_parent_map: the (start, stop, count) recipe built from a client-side parent map makes a server
+    walk include exactly the map's keys (plus the null revision when the walk reaches it and nothing stops it), and count is
+    the number of keys that walk includes.  The SHAPE of the graph is symbolic: keys and parents are symbolic one-byte ids,
+    the solver decides which of them coincide (edges only lead to larger ids, which keeps the graph acyclic)."""
+    V = cx.mod(VS)
+    T = cx.truth
+
+    class Rev:
+        NULL_REVISION = NULL
+    V.revision = Rev
+    alpha = b"abcd" + NULL
+    nk = cx.choose("nkeys", 0, cx.p("nkeys"))
+    keys, parents = [], []
+    for i in range(nk):
+        k = cx.bytes("key%d" % i, 1, alpha)
+        for o in keys:
+            cx.assume(o != k)
+        ps = []
+        for j in range(cx.choose("nparents%d" % i, 0, 2)):
+            p = cx.bytes("parent%d_%d" % (i, j), 1, alpha)
+            cx.assume(p[0] > k[0])                     # acyclic; the null revision has no parents
+            for o in ps:
+                cx.assume(o != p)
+            ps.append(p)
+        keys.append(k)
+        parents.append(ps)
+    missing = []
+    for j in range(cx.choose("nmissing", 0, cx.p("nmissing"))):
+        m = cx.bytes("missing%d" % j, 1, alpha)
+        for o in missing + keys:
+            cx.assume(o != m)                         # a key with known parents is not in the client's "missing" cache
+        missing.append(m)
+    if cx.sym:
+        from symx.containers import SymDict, SymSet
+        pm = SymDict([(k, tuple(ps)) for k, ps in zip(keys, parents)])
+        ms = SymSet(missing)
+    else:
+        pm = {k: tuple(ps) for k, ps in zip(keys, parents)}
+        ms = set(missing)
+    start, stop, count = V.search_result_from_parent_map(pm, ms)
+    start, stop = list(start), list(stop)
+
+    def member(x, xs):
+        return any(T(x == y) for y in xs)
+    # reference: the walk the server performs from `start`, not entering `stop`; ghosts (missing, not null) are absent
+    included = []
+    frontier = list(start)
+    while frontier:
+        x = frontier.pop()
+        if member(x, included) or member(x, stop):
+            continue
+        is_key = member(x, keys)
+        if not is_key and not T(x == NULL):
+            if member(x, missing):
+                continue                                  # a ghost: the server has nothing to include
+            cx.require(False, "the server walk reaches a revision that is neither in the client's map nor a stop key")
+        included.append(x)
+        if is_key:
+            for k, ps in zip(keys, parents):
+                if T(k == x):
+                    frontier.extend(ps)
+    for k in keys:
+        cx.require(member(k, included), "a revision of the client's map is not covered by the walk the recipe describes")
+    cx.require(T(count == len(included)), "recipe count %r, the server walk includes %d revisions" % (count, len(included)))
+    for s in start:
+        cx.require(member(s, keys), "start key outside the map")
+    if nk == 0:
+        cx.cover("empty")
+    if member(NULL, included) and not member(NULL, keys):
+        cx.cover("null_counted")
+    if member(NULL, keys):
+        cx.cover("null_is_key")
+    if stop:
+        cx.cover("stops")
+    cx.observe("recipe", (len(start), len(stop), count))
+
+
 def obligations(tier):
     q = tier == "quick"
     p = dict(nids=2, lid=2 if q else 3, maxcount=99999)
@@ -158,4 +239,9 @@ def obligations(tier):
                   "serialisers (recipe / SearchResult.get_network_struct)" % p),
         Ob("ancestry_of", ob_ancestry, lift, p, to, 1, ["ancestry"],
            bounds="<= %(nids)d heads of <= %(lid)d bytes" % p),
+        Ob("recipe_construction", ob_construction, [(VS, dict(symdict=True))], dict(nkeys=2 if q else 3, nmissing=1 if q else 2),
+           to, 2 if q else 1, ["empty", "null_counted", "null_is_key", "stops"],
+           bounds="parent maps of <= %d keys with 0..2 parents each; keys, parents and <= %d missing keys are symbolic ids over "
+                  "5 letters (one of them the null revision), so every graph shape over them is covered"
+                  % ((2, 1) if q else (3, 2))),
     ]
